@@ -38,6 +38,8 @@ def runs_for(pid, tier, seed):
               simulate=1000 if q else 12000, invariants=fm.BIG_INVARIANTS),
             R('lists of four', fm.four_long(CritLists=some, ReportCap=4), simulate=1500 if q else 20000),
             R('three lecturers', fm.lec3(ReportCap=4, **fm.build(0, 3)), simulate=2000 if q else 25000),
+            R('large ids (core embedded among dummy agents)', fm.shifted(ReportCap=3, **fm.build(0, 2)), simulate=160 if q else 2000,
+              invariants=fm.BIG_INVARIANTS),
         ]
         if not q:
             runs += [R('shared3', fm.shared3(CritLists=none, ReportCap=64, CheckIP=True)),
@@ -78,6 +80,7 @@ def runs_for(pid, tier, seed):
             R('wide-hr x singles', fm.wide(na=2, CritLists=sg), simulate=1500 if q else 20000),
             R('lists of four x singles', fm.four_long(CritLists=sg), simulate=2500 if q else 30000),
             R('three lecturers x singles', fm.lec3(CritLists=sg), simulate=2500 if q else 30000),
+            R('large ids x singles', fm.shifted(CritLists=sg), simulate=160 if q else 2000, invariants=fm.BIG_INVARIANTS),
         ]
         if not q:
             runs += [R('shared3 x singles', fm.shared3(CritLists=sg), simulate=40000),
@@ -90,6 +93,7 @@ def runs_for(pid, tier, seed):
             R('s2core x 2-3 criteria (id/rev/gap/hi)', fm.s2core(Press={'id', 'rev', 'gap', 'hi'}, MaxLen=2, **fm.build(2, 3)), simulate=5000 if q else 80000),
             R('wide x 2-4 criteria', fm.wide(Press={'id', 'rev', 'gap', 'hi'}, **fm.build(2, 4)), simulate=4000 if q else 60000),
             R('lists of four x 2-3 criteria', fm.four_long(Press={'id', 'hi'}, **fm.build(2, 3)), simulate=1500 if q else 20000),
+            R('large ids x 2-3 criteria', fm.shifted(Press={'id', 'hi'}, **fm.build(2, 3)), simulate=160 if q else 2000, invariants=fm.BIG_INVARIANTS),
             R('wide x 5-9 criteria', fm.wide(Press={'id', 'rev'}, **fm.build(5, 9)), simulate=500 if q else 8000),
             R('wide-hr x 2-3 criteria', fm.wide(na=2, Press={'id', 'rev'}, **fm.build(2, 3)), simulate=1500 if q else 20000),
             R('shared3 x 3 criteria', fm.shared3(Press={'id', 'gap'}, **fm.build(3, 3)), simulate=2000 if q else 30000),
@@ -110,6 +114,7 @@ def runs_for(pid, tier, seed):
             R('four hospitals/residents', fm.four_short(NA=2, NP=2, CritLists=crit), simulate=1500 if q else 20000),
             R('lists of four', fm.four_long(CritLists=crit, Sided={'two'}, Stabs={True}, OrderMode='all'), simulate=1500 if q else 20000),
             R('three lecturers', fm.lec3(CritLists=crit, Sided={'two'}, Stabs={True}), simulate=2000 if q else 25000),
+            R('large ids', fm.shifted(CritLists=crit, Sided={'two'}, Stabs={True}, NL=1), simulate=200 if q else 2500, invariants=fm.BIG_INVARIANTS),
         ]
         return runs
     if pid == 'C11':
@@ -122,6 +127,8 @@ def runs_for(pid, tier, seed):
             R('lists of four, every tie structure', fm.four_long(CritLists=none + [(fm.C('maxsize'),)], ReportCap=8, PCs={True}, Stabs={False}),
               simulate=1500 if q else 20000),
             R('three lecturers', fm.lec3(CritLists=none, ReportCap=16, PCs={True}, Stabs={False}), simulate=1500 if q else 20000),
+            R('large ids', fm.shifted(CritLists=none + [(fm.C('maxsize'),)], ReportCap=6, PCs={True}, Stabs={False}), simulate=160 if q else 2000,
+              invariants=fm.BIG_INVARIANTS),
             R('10 students (two-digit ids)', fm.twodigit_students(CritLists=[(fm.C('maxsize'),), (fm.C('maxsize'), fm.C('mincost'))], ReportCap=3),
               simulate=400 if q else 5000, invariants=['FamilyWellFormed', 'ReportedValid', 'StatusIffFeasible', 'Export']),
         ]
@@ -140,6 +147,9 @@ def runs_for(pid, tier, seed):
             R('11 projects/text', fm.twodigit_projects(TieMode='all', **ld), invariants=inv, simulate=1500 if q else 15000),
             R('10 students/text', fm.twodigit_students(OrderMode='asctied', **ld), invariants=inv, simulate=800 if q else 8000),
             R('11 lecturers, quotas >= 10/text', fm.twodigit_lecturers(**ld), invariants=inv, simulate=600 if q else 6000),
+            R('12 students x 11 lecturers, two-sided/text', fm.both_twodigit(**dict(ld, CheckText=False)), invariants=['FamilyWellFormed', 'Export'],
+              simulate=1500 if q else 15000, depth=90),
+            R('large ids/text', fm.shifted(**dict(ld, CheckText=False, Stabs={False})), invariants=['FamilyWellFormed', 'Export'], simulate=240 if q else 3000),
             R('12 students, ties everywhere/text', fm.twodigit_students(NS=12, NP=3, MaxLen=3, TieMode='all', OrderMode='asctied', **ld),
               invariants=inv, simulate=500 if q else 5000),
         ]
